@@ -112,8 +112,13 @@ macro_rules! prefix_str_mut {
 
             /// Copy the content of a `&str` into the prefixed str.
             pub fn copy_from_str(&mut self, string: &str) {
-                // Safety: the &str bytes are valid UTF-8
-                unsafe { self.copy_from_slice(string.as_bytes()) }
+                // only whole characters are copied: back up to a char boundary
+                let mut length = std::cmp::min(self.value.len(), string.len());
+                while !string.is_char_boundary(length) {
+                    length -= 1;
+                }
+                // Safety: the &str bytes up to a char boundary are valid UTF-8
+                unsafe { self.copy_from_slice(&string.as_bytes()[..length]) }
             }
         }
 
